@@ -230,3 +230,439 @@ Proof.
   - simpl. rewrite forallb_app, K. simpl. unfold spawned. rewrite A1, cinv_spawn. reflexivity.
   - rewrite E, P. apply forallb_upd; auto. eapply cstep_cinv; eauto. eapply forallb_nth; eauto.
 Qed.
+
+Lemma existsb_nth : forall A (g : A -> bool) l i c, nth_error l i = Some c -> g c = true -> existsb g l = true.
+Proof. intros. apply existsb_exists. exists c. split; auto. eapply nth_error_In; eauto. Qed.
+
+Lemma no_cv_active : forall p l, active p = true -> forallb (cinvb p) l = true -> existsb iscv l = false.
+Proof.
+  intros p l Ha; induction l; simpl; intros; auto. apply andb_true_iff in H as [? ?].
+  rewrite IHl by auto. rewrite orb_false_r.
+  pbrute p; try discriminate; cbrute a; simpl in *; try discriminate; reflexivity.
+Qed.
+
+Lemma step_V : forall s l s', inv s -> step s l = Some s' ->
+  existsb iscv (kids s') = true -> forallb nv_done (kids s') = true.
+Proof.
+  intros s l s' [A1 A2 K V _ _] H.
+  destruct (step_shape _ _ _ H) as [E|[(v&->&->)|(i&c&c'&N&E&P&CS)]].
+  - rewrite E; exact V.
+  - simpl. rewrite existsb_app, forallb_app. simpl. unfold spawned. destruct (interruptable s) eqn:I.
+    + rewrite (no_cv_active (ph s)); auto. simpl. discriminate.
+    + simpl. rewrite !orb_false_r, andb_true_r. intros X. rewrite V; auto. destruct v; reflexivity.
+  - rewrite E. intros X.
+    assert (VD : forallb nv_done (kids s) = true).
+    { apply existsb_upd_or in X as [X|X]; auto.
+      destruct (cstep_cv _ _ _ _ CS X); auto. apply V. eapply existsb_nth; eauto. }
+    apply forallb_upd; auto. eapply cstep_nvdone; eauto. eapply forallb_nth; eauto.
+Qed.
+
+Lemma cinv_exited_done : forall c0 o c, cinvb (Exited c0 o) c = true -> isdone c = true.
+Proof. intros c0 o c; destruct c0; cbrute c; simpl; intros; try discriminate; reflexivity. Qed.
+
+Lemma step_O : forall s l s', inv s -> step s l = Some s' -> oinv s'.
+Proof.
+  intros s l s' [A1 A2 K _ _ O] H. unfold oinv in *.
+  destruct (step_shape _ _ _ H) as [E|[(v&->&->)|(i&c&c'&N&E&P&CS)]].
+  - rewrite E. destruct l; inv_step H; prep; auto.
+  - simpl. destruct (ph s); auto. rewrite existsb_app. simpl.
+    replace (isfailed (spawned s v)) with false; [rewrite !orb_false_r; auto|].
+    unfold spawned; destruct (interruptable s); reflexivity.
+  - rewrite E, P. destruct (ph s) eqn:Q; auto.
+    assert (D : isdone c = true).
+    { eapply cinv_exited_done. eapply forallb_nth; eauto. }
+    destruct (cstep_done _ _ _ _ CS D) as (S1&_).
+    erewrite existsb_upd_same; eauto. unfold isfailed. rewrite S1. reflexivity.
+Qed.
+
+Lemma inv_init : forall k, inv (init k).
+Proof.
+  intros k; constructor; simpl; auto; try discriminate.
+  - unfold tinv; simpl. destruct k as [|[]]; simpl; auto; split; discriminate.
+  - exact I.
+Qed.
+Lemma step_inv : forall s l s', inv s -> step s l = Some s' -> inv s'.
+Proof.
+  intros s l s' I H. destruct (step_A _ _ _ I H). constructor; auto.
+  - eapply step_K; eauto.
+  - eapply step_V; eauto.
+  - eapply step_T; eauto.
+  - eapply step_O; eauto.
+Qed.
+Lemma reachable_inv : forall k s, reachable k s -> inv s.
+Proof. induction 1; [apply inv_init|eapply step_inv; eauto]. Qed.
+
+Lemma run_app : forall l1 l2 s, run s (l1 ++ l2) = match run s l1 with Some s1 => run s1 l2 | None => None end.
+Proof. induction l1; simpl; intros; auto. destruct (step s a); auto. Qed.
+
+(** * C04 *)
+Lemma all_done_forall : forall c0 o l, forallb (cinvb (Exited c0 o)) l = true -> Forall (fun x => isdone x = true) l.
+Proof.
+  intros. apply Forall_forall. intros x Hx. rewrite forallb_forall in H.
+  eapply cinv_exited_done; eauto.
+Qed.
+
+Lemma length_upd : forall A l i (x : A), length (upd i x l) = length l.
+Proof. induction l; destruct i; simpl; auto. Qed.
+
+Definition frame (l l' : list child) : Prop :=
+  length l <= length l' /\
+  (forall i x, nth_error l i = Some x ->
+     exists x', nth_error l' i = Some x' /\ st x' = st x /\ ran x' = ran x /\ vol x' = vol x) /\
+  (forall i x', nth_error l' i = Some x' -> length l <= i -> st x' = Done Discarded /\ ran x' = false).
+Lemma frame_same : forall l, frame l l.
+Proof.
+  intros l; split; [lia|split]; intros; eauto.
+  assert (nth_error l i <> None) by congruence. apply nth_error_Some in H1. lia.
+Qed.
+Lemma frame_app : forall l v, frame l (l ++ [refused v]).
+Proof.
+  intros l v; split; [rewrite app_length; lia|split]; intros.
+  - exists x. rewrite nth_error_app1; auto. apply nth_error_Some. congruence.
+  - rewrite nth_error_app2 in H by auto. destruct (i - length l) as [|[|n]]; simpl in H; try discriminate.
+    inversion H; auto.
+Qed.
+Lemma frame_upd : forall l i c c', nth_error l i = Some c -> st c' = st c -> ran c' = ran c -> vol c' = vol c ->
+  frame l (upd i c' l).
+Proof.
+  intros l i c c' N S1 S2 S3; split; [rewrite length_upd; lia|split]; intros j x; rewrite nth_error_upd.
+  - intros Hx. destruct (Nat.eqb_spec i j).
+    + subst. rewrite Hx. exists c'. rewrite N in Hx. inversion Hx; subst. auto.
+    + exists x; auto.
+  - intros Hx L. assert (nth_error l j = None) by (apply nth_error_None; lia).
+    rewrite H in Hx. destruct (Nat.eqb i j); discriminate.
+Qed.
+
+(* after the exit: only refused spawns, reaping of never-started tasks and time; nothing else is enabled *)
+Lemma exited_step : forall s l s' c o, inv s -> ph s = Exited c o -> step s l = Some s' ->
+  ph s' = Exited c o /\ cwork s' = cwork s /\ bsteps s' = bsteps s /\ inert (intr s') = true /\
+  frame (kids s) (kids s').
+Proof.
+  intros s l s' c o I P H.
+  pose proof (i_kids _ I) as K. pose proof (i_inert _ I) as A2. pose proof (i_int _ I) as A1. rewrite P in *. simpl in *.
+  specialize (A2 eq_refl).
+  assert (ND : forall i x, nth_error (kids s) i = Some x -> isdone x = true).
+  { intros. eapply cinv_exited_done. eapply forallb_nth; eauto. }
+  destruct l; inv_step H; prep; try congruence;
+    try (match goal with N : nth_error _ _ = Some ?c, Q : st ?c = _ |- _ =>
+           apply ND in N; unfold isdone in N; rewrite Q in N; discriminate end);
+    (split; [|split; [|split; [|split]]]); auto; try apply frame_same; try apply frame_app;
+    try (eapply frame_upd; eauto; reflexivity);
+    try (match goal with H : intr _ = _ |- _ => rewrite H; reflexivity end).
+Qed.
+
+Lemma frame_trans : forall l1 l2 l3, frame l1 l2 -> frame l2 l3 -> frame l1 l3.
+Proof.
+  intros l1 l2 l3 (L1&F1&N1) (L2&F2&N2); split; [lia|split]; intros.
+  - destruct (F1 _ _ H) as (x1&X1&?&?&?). destruct (F2 _ _ X1) as (x2&X2&?&?&?).
+    exists x2; repeat split; congruence.
+  - destruct (nth_error l2 i) eqn:E.
+    + destruct (N1 _ _ E H0). destruct (F2 _ _ E) as (x2&X2&?&?&?).
+      assert (x2 = x') by congruence. subst. split; congruence.
+    + apply nth_error_None in E. eauto.
+Qed.
+
+Lemma exited_enabled : forall s l s' c o, inv s -> ph s = Exited c o -> step s l = Some s' ->
+  (exists v, l = Spawn v) \/ (exists i, l = ChildReap i) \/ l = Tick.
+Proof.
+  intros s l s' c o I P H.
+  pose proof (i_kids _ I) as K. pose proof (i_inert _ I) as A2. rewrite P in *. simpl in *.
+  specialize (A2 eq_refl).
+  assert (ND : forall i x, nth_error (kids s) i = Some x -> isdone x = true).
+  { intros. eapply cinv_exited_done. eapply forallb_nth; eauto. }
+  destruct l; eauto; inv_step H; prep; try congruence;
+    try (match goal with N : nth_error _ _ = Some ?c, Q : st ?c = _ |- _ =>
+           apply ND in N; unfold isdone in N; rewrite Q in N; discriminate end).
+Qed.
+
+Lemma exited_run : forall ls s s' c o, inv s -> ph s = Exited c o -> run s ls = Some s' ->
+  ph s' = Exited c o /\ cwork s' = cwork s /\ bsteps s' = bsteps s /\ inert (intr s') = true /\
+  frame (kids s) (kids s').
+Proof.
+  induction ls; simpl; intros s s' c o I P H.
+  - inversion H; subst. (split; [|split; [|split; [|split]]]); auto; try apply frame_same.
+    apply (i_inert _ I). rewrite P; reflexivity.
+  - destruct (step s a) eqn:E; [|discriminate].
+    destruct (exited_step _ _ _ _ _ I P E) as (P1&W1&B1&_&F1).
+    destruct (IHls _ _ _ _ (step_inv _ _ _ I E) P1 H) as (P2&W2&B2&I2&F2).
+    (split; [|split; [|split; [|split]]]); auto; try congruence. eapply frame_trans; eauto.
+Qed.
+
+Theorem contained_thm : forall k s c o, reachable k s -> ph s = Exited c o ->
+  Forall (fun x => isdone x = true) (kids s) /\
+  (forall i, step s (ChildStart i) = None /\ step s (ChildStep i) = None /\ step s (ChildReturn i) = None /\
+             step s (ChildFail i) = None /\ step s (ChildCancel i) = None /\
+             forall d, step s (CloseChild i d) = None) /\
+  (forall v, step s (Spawn v) = Some (set_kids (kids s ++ [refused v]) s)) /\
+  (forall ls s', run s ls = Some s' ->
+     ph s' = Exited c o /\ cwork s' = cwork s /\ bsteps s' = bsteps s /\ frame (kids s) (kids s')).
+Proof.
+  intros k s c o R P. pose proof (reachable_inv _ _ R) as I.
+  assert (D : forall l, (forall v, l <> Spawn v) -> (forall i, l <> ChildReap i) -> l <> Tick -> step s l = None).
+  { intros l N1 N2 N3. destruct (step s l) eqn:E; auto.
+    destruct (exited_enabled _ _ _ _ _ I P E) as [(?&?)|[(?&?)|?]]; subst; exfalso;
+      [eapply N1|eapply N2|apply N3]; reflexivity. }
+  split; [|split; [|split]].
+  - eapply all_done_forall. rewrite <- P. apply (i_kids _ I).
+  - intros i; repeat split; intros; apply D; intros; discriminate.
+  - intros v. simpl. rewrite (i_int _ I), P. reflexivity.
+  - intros ls s' H. destruct (exited_run _ _ _ _ _ I P H) as (?&?&?&?&?). auto.
+Qed.
+
+Lemma in_cinv : forall s x, inv s -> In x (kids s) -> cinvb (ph s) x = true.
+Proof. intros s x I H. pose proof (i_kids _ I) as K. rewrite forallb_forall in K. auto. Qed.
+
+Theorem graceful_complete_thm : forall k s o x, reachable k s -> ph s = Exited CGraceful o ->
+  In x (kids s) -> vol x = false ->
+  st x = Done Success \/ st x = Done CancelledInd \/ st x = Done Discarded \/ (st x = Done Failed /\ o = ChildExc).
+Proof.
+  intros k s o x R P X V. pose proof (reachable_inv _ _ R) as I.
+  pose proof (in_cinv _ _ I X) as C. pose proof (i_out _ I) as O. unfold oinv in O. rewrite P in *.
+  assert (F : isfailed x = true -> o = ChildExc).
+  { intros F. rewrite O. replace (existsb isfailed (kids s)) with true; auto.
+    symmetry. apply existsb_exists. eauto. }
+  revert C F. cbrute x; simpl in *; try discriminate; intros C F; try discriminate; auto 8.
+Qed.
+
+Theorem late_children_awaited_thm : forall k s o x, reachable k s -> ph s = Exited CGraceful o ->
+  In x (kids s) -> vol x = false -> late x = true ->
+  st x = Done Success \/ st x = Done CancelledInd \/ (st x = Done Failed /\ o = ChildExc).
+Proof.
+  intros k s o x R P X V L. destruct (graceful_complete_thm _ _ _ _ R P X V) as [?|[?|[?|?]]]; auto.
+  pose proof (in_cinv _ _ (reachable_inv _ _ R) X) as C. exfalso. revert C.
+  cbrute x; simpl in *; discriminate.
+Qed.
+
+Theorem late_spawn_accepted_thm : forall k s v, reachable k s -> ph s = SetDone \/ ph s = AwaitChildren ->
+  step s (Spawn v) = Some (set_kids (kids s ++ [accepted v true]) s).
+Proof.
+  intros k s v R P. simpl. rewrite (i_int _ (reachable_inv _ _ R)). destruct P as [P|P]; rewrite P; reflexivity.
+Qed.
+
+Theorem await_blocks_thm : forall k s x, reachable k s -> ph s = SetDone \/ ph s = AwaitChildren ->
+  In x (kids s) -> vol x = false -> isdone x = false -> step s AwaitStep = Some (set_ph AwaitChildren s).
+Proof.
+  intros k s x R P X V D. pose proof (in_cinv _ _ (reachable_inv _ _ R) X) as C.
+  assert (E : existsb pending_nv (kids s) = true).
+  { apply existsb_exists. exists x; split; auto. revert C. cbrute x; simpl in *; try discriminate; auto.
+    all: destruct P as [P|P]; rewrite P; simpl; discriminate. }
+  simpl. destruct P as [P|P]; rewrite P, E; reflexivity.
+Qed.
+
+Lemma cstep_cv2 : forall p vd c c', cstep p vd c c' -> iscv c' = true ->
+  iscv c = true \/ (isclosing p = true /\ vd = true /\ isdone c = false).
+Proof.
+  intros p vd c c' H; destruct H; intros;
+    try (match goal with H : _ \/ _ |- _ => destruct H as [?|[?|?]]; subst end); try destruct d; destruct vd; auto;
+    cbrute c; simpl in *; try discriminate; auto.
+Qed.
+
+Theorem volatile_last_step_thm : forall k s l s' i x', reachable k s -> step s l = Some s' ->
+  nth_error (kids s') i = Some x' -> st x' = Done ClosedVolatile ->
+  (exists x, nth_error (kids s) i = Some x /\ st x = Done ClosedVolatile) \/
+  (exists c x, ph s = Closing c /\ nth_error (kids s) i = Some x /\ isdone x = false /\ vol x = true /\
+               forallb nv_done (kids s) = true).
+Proof.
+  intros k s l s' i x' R H N S. pose proof (reachable_inv _ _ R) as I.
+  destruct (step_shape _ _ _ H) as [E|[(v&->&->)|(j&c&c'&Nj&E&P&CS)]].
+  - left. rewrite E in N. eauto.
+  - simpl in N. left. destruct (nth_error (kids s) i) eqn:Q.
+    + rewrite nth_error_app1 in N by (apply nth_error_Some; congruence). exists x'. split; congruence.
+    + apply nth_error_None in Q. rewrite nth_error_app2 in N by auto.
+      destruct (i - length (kids s)) as [|[|n]]; simpl in N; try discriminate.
+      inversion N; subst. unfold spawned in S. destruct (interruptable s); discriminate.
+  - rewrite E, nth_error_upd in N. destruct (Nat.eqb_spec j i).
+    + subst. rewrite Nj in N. inversion N; subst.
+      assert (X : iscv x' = true) by (unfold iscv; rewrite S; reflexivity).
+      destruct (cstep_cv2 _ _ _ _ CS X) as [Y|(Y1&Y2&Y3)].
+      * left. exists c. split; auto. unfold iscv in Y. destruct (st c) as [| |[]]; try discriminate; auto.
+      * right. destruct (ph s) eqn:Q; try discriminate. exists c0, c. repeat split; auto.
+        pose proof (forallb_nth _ _ _ _ _ (i_kids _ I) Nj) as C. clear - CS S Y3. 
+        inversion CS; subst; simpl in *; try discriminate; cbrute c; simpl in *; try discriminate; auto;
+          try (match goal with H : _ \/ _ |- _ => destruct H as [?|[?|?]]; subst; discriminate end);
+          destruct d; discriminate.
+    + left. eauto.
+Qed.
+
+Theorem volatile_last_thm : forall k s x, reachable k s -> In x (kids s) -> st x = Done ClosedVolatile ->
+  vol x = true /\ active (ph s) = false /\ forall y, In y (kids s) -> vol y = false -> isdone y = true.
+Proof.
+  intros k s x R X S. pose proof (reachable_inv _ _ R) as I. pose proof (in_cinv _ _ I X) as C.
+  assert (E : existsb iscv (kids s) = true).
+  { apply existsb_exists. exists x; split; auto. unfold iscv; rewrite S; reflexivity. }
+  pose proof (i_vlast _ I E) as V. rewrite forallb_forall in V.
+  split; [|split].
+  - revert C. unfold cinvb. rewrite S. intros C. repeat (apply andb_true_iff in C as [C ?]). auto.
+  - destruct (active (ph s)) eqn:A; auto. rewrite (no_cv_active _ _ A (i_kids _ I)) in E. discriminate.
+  - intros y Y Vy. specialize (V _ Y). unfold nv_done in V. rewrite Vy in V. exact V.
+Qed.
+
+(* a finished child never changes again (only its list membership) *)
+Lemma done_stable : forall s l s' i x, step s l = Some s' -> nth_error (kids s) i = Some x -> isdone x = true ->
+  exists x', nth_error (kids s') i = Some x' /\ st x' = st x /\ ran x' = ran x /\ vol x' = vol x.
+Proof.
+  intros s l s' i x H N D.
+  destruct (step_shape _ _ _ H) as [E|[(v&->&->)|(j&c&c'&Nj&E&P&CS)]].
+  - rewrite E. eauto.
+  - simpl. exists x. rewrite nth_error_app1; auto. apply nth_error_Some; congruence.
+  - rewrite E, nth_error_upd. destruct (Nat.eqb_spec j i).
+    + subst. rewrite N. rewrite Nj in N. inversion N; subst.
+      destruct (cstep_done _ _ _ _ CS D) as (?&?&?&?). eauto.
+    + eauto.
+Qed.
+Lemma done_stable_run : forall ls s s' i x, run s ls = Some s' -> nth_error (kids s) i = Some x -> isdone x = true ->
+  exists x', nth_error (kids s') i = Some x' /\ st x' = st x /\ ran x' = ran x /\ vol x' = vol x.
+Proof.
+  induction ls; simpl; intros s s' i x H N D.
+  - inversion H; subst; eauto.
+  - destruct (step s a) eqn:E; [|discriminate].
+    destruct (done_stable _ _ _ _ _ E N D) as (x1&N1&S1&R1&V1).
+    assert (D1 : isdone x1 = true) by (unfold isdone in *; rewrite S1; auto).
+    destruct (IHls _ _ _ _ H N1 D1) as (x2&?&?&?&?). exists x2. repeat split; congruence.
+Qed.
+
+Theorem closed_scope_refuses_thm : forall k s, reachable k s -> active (ph s) = false ->
+  interruptable s = false /\
+  (forall v, step s (Spawn v) = Some (set_kids (kids s ++ [refused v]) s)) /\
+  (forall v ls s', run (set_kids (kids s ++ [refused v]) s) ls = Some s' ->
+     exists x', nth_error (kids s') (length (kids s)) = Some x' /\ st x' = Done Discarded /\ ran x' = false).
+Proof.
+  intros k s R A. pose proof (i_int _ (reachable_inv _ _ R)) as A1. rewrite A in A1.
+  split; auto. split.
+  - intros v. simpl. rewrite A1. reflexivity.
+  - intros v ls s' H.
+    destruct (done_stable_run ls _ _ (length (kids s)) (refused v) H) as (x'&?&?&?&?); eauto.
+    simpl. rewrite nth_error_app2, Nat.sub_diag; auto.
+Qed.
+
+Theorem discarded_never_runs_thm : forall k s i x, reachable k s -> nth_error (kids s) i = Some x ->
+  st x = Done Discarded ->
+  ran x = false /\ listed x = false /\
+  step s (ChildStart i) = None /\ step s (ChildReap i) = None /\ step s (ChildStep i) = None /\
+  step s (ChildReturn i) = None /\ step s (ChildFail i) = None /\ step s (ChildCancel i) = None.
+Proof.
+  intros k s i x R N S. pose proof (reachable_inv _ _ R) as I.
+  pose proof (forallb_nth _ _ _ _ _ (i_kids _ I) N) as C.
+  assert (ran x = false /\ listed x = false).
+  { revert C. cbrute x; simpl in *; try discriminate; auto. }
+  destruct H as [H1 H2]. unfold step, on_child, running_only. rewrite N, S. unfold isdone. rewrite S, H2.
+  simpl. destruct (isclosing (ph s)); auto 10.
+Qed.
+
+(** * C07 *)
+Lemma step_mono : forall s l s', step s l = Some s' ->
+  (ph s <> Body -> bsteps s' = bsteps s /\ ph s' <> Body) /\
+  (forall c, cause_of (ph s) = Some c -> cause_of (ph s') = Some c) /\
+  (active (ph s) = false -> active (ph s') = false).
+Proof.
+  intros s l s' H; destruct l; inv_step H; prep; repeat split; intros; simpl in *; try congruence; auto.
+  all: idtac. Show.
+Qed.
+Lemma run_mono : forall ls s s', run s ls = Some s' ->
+  (ph s <> Body -> bsteps s' = bsteps s /\ ph s' <> Body) /\
+  (forall c, cause_of (ph s) = Some c -> cause_of (ph s') = Some c) /\
+  (active (ph s) = false -> active (ph s') = false).
+Proof.
+  induction ls; simpl; intros s s' H.
+  - inversion H; subst; auto.
+  - destruct (step s a) eqn:E; [|discriminate].
+    destruct (step_mono _ _ _ E) as (B1&C1&A1). destruct (IHls _ _ H) as (B2&C2&A2).
+    repeat split; intros; auto.
+    + destruct (B1 H0). destruct (B2 H2). congruence.
+    + destruct (B1 H0). destruct (B2 H2). auto.
+Qed.
+
+Lemma fired_stable : forall s l s' t, inv s -> step s l = Some s' -> fired_at s = Some t -> fired_at s' = Some t.
+Proof.
+  intros s l s' t I H F. pose proof (i_time _ I) as T. pose proof (i_inert _ I) as A2.
+  unfold tinv in T. rewrite F in T.
+  destruct l; inv_step H; prep; auto.
+  exfalso. destruct (ph s); simpl in *; try (destruct T; congruence);
+    specialize (A2 eq_refl); match goal with H : intr _ = _ |- _ => rewrite H in A2 end; discriminate.
+Qed.
+Lemma fired_stable_run : forall ls s s' t, inv s -> run s ls = Some s' -> fired_at s = Some t -> fired_at s' = Some t.
+Proof.
+  induction ls; simpl; intros s s' t I H F.
+  - inversion H; subst; auto.
+  - destruct (step s a) eqn:E; [|discriminate].
+    eapply IHls; [eapply step_inv; eauto|eauto|eapply fired_stable; eauto].
+Qed.
+
+Theorem fire_schedules_thm : forall s, intr s = Subscribed ->
+  step s Fire = Some (set_fired (set_intr IScheduled s)).
+Proof. intros s H. simpl. rewrite H. reflexivity. Qed.
+
+Theorem scheduled_now_thm : forall k s, reachable k s -> intr s = IScheduled ->
+  active (ph s) = true /\ fired_at s = Some (now s) /\ step s Tick = None /\
+  step s DeliverInterrupt = Some (set_intr IDelivered (enter_closing COwnInterrupt s)).
+Proof.
+  intros k s R S. pose proof (reachable_inv _ _ R) as I.
+  pose proof (i_time _ I) as T. pose proof (i_inert _ I) as A2. unfold tinv in T.
+  assert (A : active (ph s) = true).
+  { destruct (active (ph s)); auto. specialize (A2 eq_refl). rewrite S in A2. discriminate. }
+  split; auto. split; [|split].
+  - destruct (fired_at s); [|destruct T; congruence].
+    destruct (ph s); simpl in *; try discriminate; destruct T; congruence.
+  - simpl. rewrite S. destruct (isclosing (ph s)); auto. destruct (cs s); auto.
+  - simpl. rewrite A, S. reflexivity.
+Qed.
+
+Theorem exit_same_step_thm : forall k s t, reachable k s -> fired_at s = Some t ->
+  (isexited (ph s) = false /\ now s = t) \/ (exists c o, ph s = Exited c o /\ exited_at s = Some t).
+Proof.
+  intros k s t R F. pose proof (i_time _ (reachable_inv _ _ R)) as T. unfold tinv in T. rewrite F in T.
+  destruct (ph s) eqn:P; simpl; try (left; split; [reflexivity|tauto]); eauto.
+Qed.
+
+Theorem until_exit_thm : forall k s s1 ls s2, reachable k s ->
+  step s DeliverInterrupt = Some s1 -> run s1 ls = Some s2 ->
+  fired_at s = Some (now s) /\ bsteps s2 = bsteps s /\
+  ((isexited (ph s2) = false /\ now s2 = now s /\ ph s2 = Closing COwnInterrupt) \/
+   (exists o, ph s2 = Exited COwnInterrupt o /\ exited_at s2 = Some (now s))).
+Proof.
+  intros k s s1 ls s2 R H1 H2. pose proof (reachable_inv _ _ R) as I.
+  assert (S : intr s = IScheduled /\ active (ph s) = true).
+  { simpl in H1. destruct (active (ph s)); [|discriminate]. destruct (intr s); try discriminate. auto. }
+  destruct S as [S A]. destruct (scheduled_now_thm _ _ R S) as (_&F&_&D).
+  rewrite D in H1. inversion H1; subst s1. clear H1.
+  assert (R2 : reachable k s2).
+  { eapply reachable_run; [|exact H2]. eapply r_step; eauto. }
+  destruct (run_mono _ _ _ H2) as (B&C&_). simpl in B, C.
+  destruct B as [B _]; [discriminate|]. specialize (C _ eq_refl).
+  assert (F2 : fired_at s2 = Some (now s)).
+  { eapply fired_stable_run; [|exact H2|exact F]. eapply step_inv; eauto. }
+  split; auto. split; auto.
+  destruct (exit_same_step_thm _ _ _ R2 F2) as [(E&N)|(c&o&P&X)].
+  - left. split; auto. split; auto. destruct (ph s2); simpl in *; try discriminate. congruence.
+  - right. rewrite P in C. simpl in C. inversion C; subst. eauto.
+Qed.
+
+Theorem until_no_raise_thm : forall k s c o, reachable k s -> ph s = Exited c o ->
+  c = CGraceful \/ c = COwnCancel \/ c = COwnInterrupt ->
+  o = (if existsb isfailed (kids s) then ChildExc else NoExc) /\
+  ((forall x, In x (kids s) -> st x <> Done Failed) -> o = NoExc).
+Proof.
+  intros k s c o R P C. pose proof (i_out _ (reachable_inv _ _ R)) as O. unfold oinv in O. rewrite P in O.
+  assert (o = if existsb isfailed (kids s) then ChildExc else NoExc).
+  { rewrite O. destruct C as [?|[?|?]]; subst c; reflexivity. }
+  split; auto. intros N. rewrite H. destruct (existsb isfailed (kids s)) eqn:E; auto.
+  apply existsb_exists in E as (x&X&Fx). exfalso. apply (N x X).
+  unfold isfailed in Fx. destruct (st x) as [| |[]]; try discriminate. reflexivity.
+Qed.
+
+Theorem until_inert_after_thm : forall k s ls s', reachable k s -> active (ph s) = false ->
+  run s ls = Some s' ->
+  active (ph s') = false /\ inert (intr s') = true /\ step s' DeliverInterrupt = None /\ step s' Fire = None.
+Proof.
+  intros k s ls s' R A H. destruct (run_mono _ _ _ H) as (_&_&A'). specialize (A' A).
+  pose proof (i_inert _ (reachable_inv _ _ (reachable_run _ _ _ _ R H)) A') as N.
+  repeat split; auto; simpl.
+  - rewrite A'. reflexivity.
+  - destruct (intr s'); auto; discriminate.
+Qed.
+
+Theorem already_true_on_entry_thm :
+  intr (init (Until true)) = IScheduled /\ fired_at (init (Until true)) = Some 0 /\
+  step (init (Until true)) Tick = None /\
+  exists s', step (init (Until true)) DeliverInterrupt = Some s' /\ ph s' = Closing COwnInterrupt /\ bsteps s' = 0.
+Proof. repeat split. eexists; repeat split. Qed.
